@@ -121,9 +121,12 @@ def ref(self):
     starts = [0] * len(self.coolers)
     for row in partition[1:]:
         stops = [index[row] for index in indexes]
-        combined = pd.concat(
-            [c.pixels()[a:b] for c, a, b in zip(self.coolers, starts, stops) if (b - a) > 0],
-            axis=0, ignore_index=True)
+        pieces = [c.pixels()[a:b] for c, a, b in zip(self.coolers, starts, stops) if (b - a) > 0]
+        if not pieces:
+            # an epoch in which no input has a record (empty inputs; empty rows ahead of an
+            # oversized row) contributes nothing - it must not reach pandas.concat
+            continue
+        combined = pd.concat(pieces, axis=0, ignore_index=True)
         df = combined.groupby(["bin1_id", "bin2_id"], sort=True).aggregate(self.agg).reset_index()
         yield {k: v.values for k, v in df.items()}
         starts = stops
